@@ -2197,6 +2197,15 @@ class TestGraph(object):
                 if next.is_cleanup_ready(worker):
                     self.report_progress()
 
+                    if not next.is_flat() and len(unexplored_nodes) == 0:
+                        # nodes unrolled only by other workers could still add children for this worker
+                        unexplored_nodes = [
+                            node
+                            for node in self.nodes
+                            if node.is_flat()
+                            and not node.is_unrolled(worker)
+                            and node.should_parse(worker)
+                        ]
                     if not next.is_flat() and len(unexplored_nodes) > 0:
                         # postpone cleaning up current node since it might have newly added children
                         logging.info(
